@@ -257,6 +257,16 @@ def check_expr(np, ASA, cont, model, spec, dtype, expr, case, cname):
 	if kind == 'int':
 		if not isinstance(res, np.ndarray) or res.dtype != dtype or not np.array_equal(res, exp):
 			raise Violation('wrong_item', f'{cname}[{_show(expr)}] = {_summ(res)}, expected {exp.tolist()}', case)
+		# the array stays what it is while the caller goes on using the collection (other items, iteration, slices)
+		n_ = len(model)
+		others = [cont[j] for j in range(n_)]
+		_ = list(cont)
+		_ = cont[0:n_]
+		if not np.array_equal(res, exp):
+			raise Violation('item_changed_later', f'{cname}[{_show(expr)}] was {exp.tolist()} when returned and is {_summ(res)} after other items of the collection were read', case)
+		for j, (o, m) in enumerate(zip(others, model)):
+			if not np.array_equal(o, m):
+				raise Violation('item_changed_later', f'{cname}: item {j} fetched in a loop over all items is {_summ(o)}, expected {m.tolist()} (results share storage)', case)
 		return
 	if not isinstance(res, ASA):
 		raise Violation('result_type', f'{cname}[{_show(expr)}] returned {type(res).__name__}, not a signature collection', case)
